@@ -81,6 +81,19 @@ CLAIMS = {
                 'determinism = C03). 1-2 transactions per block.',
         'technique': 'bounded symbolic execution of rustc MIR with callee events + z3 obligations',
     },
+    'C07': {
+        'text': 'PARTIAL. Symbolic execution of the MIR of SealedState::header, next_unsealed, SmtMapping::{get, insert, delete, '
+                'get_with_proof} and StakeSet::pre_tip911: every header root is the root of its own tree, previous is the '
+                'hash of the header stored at height-1 (zero at genesis), scalar fields are copied; next_unsealed stores '
+                'exactly header(self) at the current height, advances the height by one, keeps the network and the other '
+                'trees, empties the transaction set; SmtMapping keys are hash(ser(k)), values ser(v), delete writes the '
+                'empty value, the proof returned is for that key; the stake tree holds exactly the stored stakes.',
+        'design_ref': 'DESIGN.md §8 C07, §5.3',
+        'note': COMMON_NOTE + ' NOT decided: that novasmt roots depend on contents only, that Merkle proofs verify, sorted '
+                'transaction positions (novasmt / imbl internals are hashing loops over pointer-rich trees: modelled by '
+                'contract, see DESIGN §5.3).',
+        'technique': 'bounded symbolic execution of rustc MIR + z3 wiring obligations (tree internals by contract)',
+    },
     'C08': {
         'text': 'Symbolic execution of the MIR of SealedState::to_block, header and from_block composed on an arbitrary '
                 'sealed state: every one of the 11 UnsealedState fields and the stored proposer action of '
